@@ -50,7 +50,9 @@ fn pending(fd: i32) -> i32 {
 }
 
 fn expected_lines(text: &[u8]) -> Vec<Vec<u8>> {
-    let mut v: Vec<Vec<u8>> = text.split(|&b| b == b'\n').map(<[u8]>::to_vec).collect();
+    // a line that is not valid UTF-8 comes back with every maximal invalid sequence replaced by
+    // U+FFFD (the standard lossy conversion); for valid text this is the identity
+    let mut v: Vec<Vec<u8>> = text.split(|&b| b == b'\n').map(|l| String::from_utf8_lossy(l).as_bytes().to_vec()).collect();
     if v.last().is_some_and(Vec::is_empty) {
         v.pop();
     }
@@ -229,6 +231,82 @@ impl Space for ShortTexts {
             counters: vec![("executions", execs), ("distinct_outcomes_per_text_sum", outcomes.len() as u64)],
             sample: None,
         }
+    }
+}
+
+/// Lines that are not valid UTF-8 (lone continuation / start bytes, a truncated sequence), at
+/// the start, in the middle and at the end of a line and of the input, in every composition.
+struct ByteTexts {
+    max_len: u32,
+}
+
+const BYTE_ATOMS: &[&[u8]] = &[b"a", b"\n", &[0xE9], &[0xFF], &[0xE2, 0x82], "\u{20ac}".as_bytes()];
+
+impl ByteTexts {
+    fn count(&self) -> u64 {
+        (1..=self.max_len).map(|l| (BYTE_ATOMS.len() as u64).pow(l)).sum()
+    }
+    fn nth(&self, mut i: u64) -> Vec<u8> {
+        let k = BYTE_ATOMS.len() as u64;
+        let mut len = 1;
+        while i >= k.pow(len) {
+            i -= k.pow(len);
+            len += 1;
+        }
+        let mut t = Vec::new();
+        for _ in 0..len {
+            t.extend_from_slice(BYTE_ATOMS[(i % k) as usize]);
+            i /= k;
+        }
+        t
+    }
+}
+
+impl Space for ByteTexts {
+    fn id(&self) -> String {
+        format!("byte-texts-le{}-all-compositions", self.max_len)
+    }
+    fn size(&self) -> u64 {
+        self.count()
+    }
+    fn profile(&self) -> Profile {
+        Profile::Poison
+    }
+    fn chunk(&self) -> u64 {
+        8
+    }
+    fn case_timeout_ms(&self) -> u64 {
+        120_000
+    }
+    fn describe(&self, i: u64) -> String {
+        format!("bytes {:02x?} in every composition", self.nth(i))
+    }
+    fn run(&self, ctx: &mut Ctx, i: u64) -> Outcome {
+        let text = self.nth(i);
+        let lines = expected_lines(&text).len();
+        let n = text.len();
+        let mut execs = 0u64;
+        let masks: u64 = if n <= 1 { 1 } else { 1 << (n - 1) };
+        for mask in 0..masks {
+            let cuts: Vec<usize> = (1..n).filter(|k| (mask >> (k - 1)) & 1 == 1).collect();
+            let chunks = compose(&text, &cuts);
+            for prefill in [false, true] {
+                if prefill && mask != 0 {
+                    continue;
+                }
+                let got = run_case(ctx, &chunks, prefill, lines + 2);
+                execs += 1;
+                if let Some(why) = judge(&text, &got) {
+                    let v = Violation::new(
+                        "read_line-wrong-line",
+                        json!({"bytes": format!("{text:02x?}"), "cuts": cuts, "prefill": prefill}).to_string(),
+                        json!({"why": why}),
+                    );
+                    return Outcome { nontrivial: true, class: "violation".into(), violations: vec![v], counters: vec![("executions", execs)], sample: None };
+                }
+            }
+        }
+        Outcome { nontrivial: std::str::from_utf8(&text).is_err(), class: "ok".into(), violations: vec![], counters: vec![("executions", execs)], sample: None }
     }
 }
 
@@ -439,6 +517,7 @@ pub fn spaces(tier: Tier) -> Vec<Box<dyn Space>> {
     let t = tier == Tier::Thorough;
     vec![
         Box::new(ShortTexts { texts: Strings::new(&["x", "\n", "é"], if t { 6 } else { 5 }) }),
+        Box::new(ByteTexts { max_len: if t { 5 } else { 4 } }),
         Box::new(LongLines { two_cuts: t }),
         Box::new(CliLines { thorough: t }),
     ]
